@@ -85,8 +85,23 @@ def order(ctx):
         key = '%s|%s' % (cid(f.id), what)
         where = loc(c['span'])
         ce = f.expr_of_call(c['term'])
+        ctx._leaves = []
         ok, why = discharge(ctx, f, c, ce, depth=0)
-        ctx.ob(['C09', 'C19'] if 'resolve' in f.id else ['C09'], 'R-ORDER', key, ok, why, where, show(ce)[:140])
+        if ok:
+            ctx.ob(['C09', 'C19'] if 'resolve' in f.id else ['C09'], 'R-ORDER', key, ok, why, where, show(ce)[:140])
+        else:
+            # one obligation per place where the order is finally consumed without a discharge, keyed by that consumer (not by
+            # the function that happens to contain the iteration: the source may be moved into a helper without changing anything)
+            cont = what.split(' on ')[-1]
+            seen_ = set()
+            for (cons_, cls_, ok_, why_) in ctx._leaves:
+                if ok_ or (cons_, cls_) in seen_:
+                    continue
+                seen_.add((cons_, cls_))
+                ctx.ob(['C09', 'C19'] if ('resolve' in f.id or 'resolve' in cons_ or cls_ == 'SCHEDULE') else ['C09'], 'R-ORDER', '%s|%s|%s' % (cons_, cls_, cont), False,
+                       '%s [source: %s in %s]' % (why_, what, short(f.id)), where, show(ce)[:140])
+            if not seen_:
+                ctx.ob(['C09', 'C19'] if 'resolve' in f.id else ['C09'], 'R-ORDER', key, ok, why, where, show(ce)[:140])
     ctx.ob(['C09'], 'R-ORDER', 'census', True, 'hash-order sources found and classified: %d' % n, nontrivial=False)
     # wrappers that hand the order on are followed by `discharge`; additionally: no hash container is turned into output
     # through Debug formatting of a map/set ({:?}) outside error texts
@@ -144,7 +159,16 @@ def _ops(rv):
 
 
 def discharge(ctx, f, c, ce, depth):
-    """(ok, reason) for one order-exposing value `ce` produced by call `c` in function `f`"""
+    """(ok, reason) for one order-exposing value `ce` produced by call `c` in function `f`; every terminal decision (the place
+    where the order is finally consumed) is recorded in ctx._leaves as (consumer function, class, ok, reason)"""
+    ok, why = _discharge(ctx, f, c, ce, depth)
+    if not why.startswith('ESCAPES through'):
+        cls = re.match(r'^([A-Z][A-Z-]+)', why)
+        ctx._leaves.append((cid(f.id), cls.group(1) if cls else 'UNSORTED-USE', ok, why))
+    return ok, why
+
+
+def _discharge(ctx, f, c, ce, depth):
     P = ctx.prog
     if depth > 3:
         return False, 'order escapes through too many wrappers'
@@ -178,6 +202,9 @@ def discharge(ctx, f, c, ce, depth):
         for d in ds:
             e = f.expr_of_def(d)
             if any(y == ce for y in walk(e)) and l in f.names and (l in f.mut_borrowed() or len(ds) == 1):
+                ks_ = f.exit_kinds_from(d[0])
+                if ks_ and ks_ <= {'err_own', 'err_prop', 'diverge'}:
+                    continue        # a copy made on a path that can only end in Err: error text
                 if is_call(e, 'Iterator::collect') or is_call(e, 'from_iter') or e == ce:
                     holder = (l, d, e)
     # 2a. SORTED
@@ -344,7 +371,15 @@ def loop_exit(ctx):
     oks = [x for x in f.exits() if x['kind'] == 'ok']
     MUT = re.compile(r'(TypeRegistry::get_mut|SemanticState::add_item|TypeRegistry::add|type_definition::build|enum_definition::build|Module::resolve_extern_values|HashMap<.*>::(insert|get_mut|entry|remove))$')
     PURE = re.compile(r'(::is_empty|::len|::deref|::eq|::ne|::clone|::iter|::into_iter|::next|::as_ref|::borrow|::as_slice|::fmt|drop_in_place)$')
-    mut_blocks = {c['block'] for c in f.calls(lambda r: r['path'] and MUT.search((r['callee'].get('rfull') or r['path'])))}
+    def may_mutate(r):
+        if not r['path']:
+            return False
+        if MUT.search(r['callee'].get('rfull') or r['path']):
+            return True
+        g_ = P.fns.get(r['path'])
+        # an in-crate function that receives the state (or the registry) mutably
+        return g_ is not None and any(re.match(r"^&('\w+ )?mut semantic::(semantic_state::SemanticState|type_registry::TypeRegistry)$", t_) for t_ in g_.raw.get('inputs', []))
+    mut_blocks = {c['block'] for c in f.calls(may_mutate)}
     ucalls = [c for c in f.calls(lambda r: r['path'] and r['path'].endswith('TypeRegistry::unresolved'))]
 
     def usites(e, d=0):
@@ -507,7 +542,21 @@ def loop_exit(ctx):
         ok3 = ok3 and any(any(isinstance(y, tuple) and y and (is_call(y, 'TypeRegistry::unresolved') or (y[0] == 'var' and usites(y))) for y in walk(expand(f, x['expr']))) for x in err)
     ctx.ob(['C10', 'C12'], 'R-GUARD', 'C10-D1|no-progress-is-error', ok3,
            'every trip around the resolution loop compares the worklist before and after; no change ⇒ Err whose message interpolates the worklist', gs[0][0].where() if gs else where)
-    # a built item is stored as Resolved under its own path
+    # a built item is stored as Resolved under its own path (in build itself or in the per-item method it calls in the loop)
+    fb_ = f
+    has_store = lambda g_: any(kind == 'rv' and [e_['name'] for e_ in payload['place']['proj'] if e_['k'] == 'Field'] == ['state']
+                               for sts_ in g_.stores().values() for (bi, si, kind, payload, span) in sts_)
+    if not has_store(f):
+        helpers_ = [P.fns[c['path']] for c in f.calls(lambda r: r['path'] in P.fns and outer and r['block'] in outer[1]) if has_store(P.fns[c['path']])]
+        if len(helpers_) == 1:
+            # the helper must be called for the loop's own element, on every trip of the inner loop
+            hc = [c for c in f.calls(lambda r: r['path'] == helpers_[0].id)]
+            Lin = innermost_loop(f, hc[0]['block']) if len(hc) == 1 else None
+            from r_panic import cycle_without as _cw
+            if Lin and not _cw(f, Lin[1], Lin[0], {hc[0]['block']}) and any(
+                    isinstance(y, tuple) and y[0] == 'payload' and y[2] == 'Some' and is_call(strip(y[1]), 'Iterator::next') for a_ in hc[0]['term']['args'] for y in walk(f.expr_of_operand(a_))) and \
+                    any(g_.kind == 'reject' and g_.pred[0] == 'fails' and find_calls(g_.pred, helpers_[0].id.split('::')[-1]) for g_ in guards_of(f)):
+                f = helpers_[0]
     st_ok = False
     for l, sts in f.stores().items():
         for (bi, si, kind, payload, span) in sts:
@@ -530,6 +579,7 @@ def loop_exit(ctx):
     disp = [s for s in f.switches() if s['cond'][0] == 'discr' and strip(s['cond'][1])[0] == 'field' and strip(s['cond'][1])[2] == 'inner']
     okd = len(disp) == 1 and {lab for lab, _ in disp[0]['edges']} == {'Type', 'Enum'}
     ctx.ob(['C10', 'C14'], 'R-MATCH', 'SSB|both-item-kinds-built', okd, 'types and enums are both dispatched to their builder', where)
+    f = fb_
 
 
 # ------------------------------------------------------------------------------------------------
@@ -633,7 +683,7 @@ def binding(ctx):
                 not any(re.search(r'Iterator::(skip|take|filter|step_by|chain)$', c_) for c_ in chain)
             if part:
                 pc = part[0][2][1]
-                okp = pc[0] == 'closure' and pc[1] in P.fns and any(is_call(x['expr'], 'contains_key') for x in P.fns[pc[1]].exits())
+                okp = pc[0] == 'closure' and pc[1] in P.fns and any(is_membership(P, x['expr']) for x in P.fns[pc[1]].exits())
                 src = strip(part[0][2][0])
                 okp = okp and is_call(src, 'slice::<impl [T]>::iter') and strip(src[2][0])[0] == 'arg'
                 ok1 = ok1 and okp
@@ -667,7 +717,7 @@ def binding(ctx):
                     ck = False
                     if fnd2:
                         pr = fnd2[0][2][1]
-                        ck = pr[0] == 'closure' and pr[1] in P.fns and any(is_call(y['expr'], 'contains_key') for y in P.fns[pr[1]].exits())
+                        ck = pr[0] == 'closure' and pr[1] in P.fns and any(is_membership(P, y['expr']) for y in P.fns[pr[1]].exits())
                     ok2 = root_first and mods and jn and ck and not any(c_[3].endswith('Iterator::rev') for c_ in calls_in(ce))
         ok = ok1 and ok2
     if e is None and len(rs.loops()) == 2:
@@ -708,7 +758,7 @@ def binding(ctx):
                 not any(re.search(r'Iterator::(skip|take|filter|step_by|chain)$', c_) for c_ in chain)
             if part:
                 pc = part[0][2][1]
-                okp = pc[0] == 'closure' and pc[1] in P.fns and any(is_call(x['expr'], 'contains_key') for x in P.fns[pc[1]].exits())
+                okp = pc[0] == 'closure' and pc[1] in P.fns and any(is_membership(P, x['expr']) for x in P.fns[pc[1]].exits())
                 psrc = strip(part[0][2][0])
                 ok1 = ok1 and okp and is_call(psrc, 'slice::<impl [T]>::iter') and strip(psrc[2][0])[0] == 'arg'
             c1, lab1, r1, _b = hits1[0]
@@ -725,7 +775,7 @@ def binding(ctx):
                     not any(re.search(r'Iterator::(rev|skip|take|filter|step_by)$', c_[3]) for c_ in calls_in(src2))
                 cand = [x for x in walk(c2) if is_call(x, 'ItemPath::join')]
                 elem2 = [x for x in walk(c2) if isinstance(x, tuple) and x[0] == 'payload' and x[2] == 'Some' and is_call(strip(x[1]), 'Iterator::next')]
-                ck = is_call(c2, 'contains_key') and lab2 is True and len(cand) >= 1 and bool(elem2) and any(x == elem2[0] for x in walk(cand[0][2][0])) and \
+                ck = is_membership(P, c2) and lab2 is True and len(cand) >= 1 and bool(elem2) and any(x == elem2[0] for x in walk(cand[0][2][0])) and \
                     any(isinstance(x, tuple) and x[0] == 'arg' and x[2] == 'name' for x in walk(cand[0]))
                 okr2 = r2[0] == 'agg' and r2[2] and r2[2][0][1][0] == 'agg' and r2[2][0][1][1].endswith('Type::Raw') and bool(cand) and strip(r2[2][0][1][2][0][1]) == strip(cand[0])
                 ok2 = root_first and mods and ck and okr2
@@ -818,14 +868,25 @@ def confinement(ctx):
     res = [f for f in P.fns.values() if re.search(r'TypeRegistry::(resolve_string|resolve_grammar_type|padding_type)', f.id)]
     bad = []
     n = 0
+    # the resolver functions, their closures, and the small registry accessors they call
+    res_all = list(res)
     for f in res:
+        for g_ in P.closures_of(f):
+            if g_ not in res_all:
+                res_all.append(g_)
+    for f in list(res_all):
+        for w in P.callees(f.id, kinds=('call',)):
+            g_ = P.fns.get(w)
+            if g_ is not None and g_ not in res_all and re.search(r'TypeRegistry::\w+$', g_.id) and not re.search(r'TypeRegistry::(resolve_\w+|padding_type)$', g_.id):
+                res_all.append(g_)
+    for f in res_all:
         for c in f.calls():
             full = (c['callee'] or {}).get('rfull') or ''
             if re.match(REGISTRY_MAP, full):
                 n += 1
                 if not re.search(r'::(contains_key|get)$', c['path']):
                     bad.append((cid(f.id), short(c['path'])))
-    ctx.ob(['C19', 'C11'], 'R-ORDER', 'C19-D2|resolver-keyed-access-only', not bad and n >= 2,
+    ctx.ob(['C19', 'C11'], 'R-ORDER', 'C19-D2|resolver-keyed-access-only', not bad and n >= 1,
            'inside name resolution the registry is consulted only by key (contains_key/get), %d accesses; never iterated: %s' % (n, bad))
     # D4 the backend prints a module from its own definition set
     be = [f for f in P.fns.values() if f.id.endswith('backends::rust::write_module')]
